@@ -62,4 +62,41 @@ def decodeGetCFCheckpt (s : Bytes) : Option (Nat × Bytes) :=
   | ft :: r => if r.length ≠ 32 then none else some (ft.toNat, r.reverse)
   | [] => none
 
+/-- `version` decoder (protocol documentation: 4 version, 8 services, 8 timestamp, 26-byte receiver
+    address (8 services, 16 IP, 2 port), 26-byte sender address, 8 nonce, var-str user agent,
+    4 start height, 1 relay).  The IPv4-mapped prefix `00×10 ff ff` is checked; ports are read
+    in the byte order the library writes them (little-endian — the protocol says big-endian for
+    ports: observation O19c, the library is self-consistent, and `version` is never parsed by it). -/
+def decodeVersion (s : Bytes) : Option Version := do
+  if s.length < 85 then none else
+  let version := leToNat (s.take 4); let s := s.drop 4
+  let services := leToNat (s.take 8); let s := s.drop 8
+  let timestamp := leToNat (s.take 8); let s := s.drop 8
+  let rsv := leToNat (s.take 8); let s := s.drop 8
+  if s.take 12 ≠ ipv4Prefix then none else
+  let s := s.drop 12
+  let rip := s.take 4; let s := s.drop 4
+  let rport := leToNat (s.take 2); let s := s.drop 2
+  let ssv := leToNat (s.take 8); let s := s.drop 8
+  if s.take 12 ≠ ipv4Prefix then none else
+  let s := s.drop 12
+  let sip := s.take 4; let s := s.drop 4
+  let sport := leToNat (s.take 2); let s := s.drop 2
+  let nonce := s.take 8; let s := s.drop 8
+  let (ua, s) ← readVarstr s
+  if s.length ≠ 5 then none else
+  let lb := leToNat (s.take 4)
+  match s.drop 4 with
+  | [r] => if r = 1 then some ⟨version, services, timestamp, rsv, rip, rport, ssv, sip, sport, nonce, ua, lb, true⟩
+           else if r = 0 then some ⟨version, services, timestamp, rsv, rip, rport, ssv, sip, sport, nonce, ua, lb, false⟩
+           else none
+  | _ => none
+
+/-- `merkleblock`: header, total, count + hashes (internal order), var-bytes flags -/
+def encodeMerkleBlock (hdr : Bytes) (total : Nat) (hashes : List Bytes) (flags : Bytes) : Option Bytes := do
+  let t ← natToLE total 4
+  let n ← encodeVarint hashes.length
+  let f ← encodeVarstr flags
+  pure (hdr ++ t ++ n ++ (hashes.map List.reverse).flatten ++ f)
+
 end Buidl.Spec.Wire
